@@ -65,6 +65,11 @@ def run_impl(case, outcome):
 
     op = case["op"]
     outcome.count("op:" + op)
+    if case.get("_after") == "faults" and not _FAULTS_DONE:
+        # (also on replay of a single case: the prelude is part of the case)
+        run_user_code_faults()
+        _FAULTS_DONE.append(True)
+        outcome.count("prelude:user-code-faults")
     if op == "eq-edit":
         # two equal messages are compared, one is then edited IN PLACE (a child's attribute or text, the children list),
         # and they are compared again: every comparison must reflect the contents at that moment
@@ -319,7 +324,8 @@ def gen_eq_cases(rng, tier):
         yield {"op": "eq", "a": a, "b": b, "rel": rel}
     # numbers held as Python numbers (messages built by a driver carry floats and ints, not text): two messages whose numeric
     # attribute / child value / child attribute differ only far behind the leading digits are different messages
-    close = [(1234567.125, 1234567.25), (2460310.5000001, 2460310.5000002), (0.1234567, 0.12345675), (16777216, 16777217), (5, 5.5)]
+    close = [(1234567.125, 1234567.25), (2460310.5000001, 2460310.5000002), (0.1234567, 0.12345675), (16777216, 16777217), (5, 5.5),
+             (0.0, -0.0), (-0.0, 0.0), (1.0, 1), (2, 2.0)]               # equal as numbers (same hash), different on the wire
     for tag, (cls, base, optional, child, vkind) in MSGS.items():
         numeric_kw = [k for k in list(base) + list(optional) if k in ("timeout",)]
         for x, y in close:
@@ -504,6 +510,91 @@ def gen_parse_cases(rng, tier):
             kids.append("<%s %s>%s</%s>" % (ptag, pat, esc(pv or ""), ptag))
         text = rng.choice(["", "", " ", "\n", esc(rng.choice(pool))])
         yield {"op": "fromstring", "xml": "<%s %s>%s%s</%s>" % (tag, attrs, text, "".join(kids), tag)}
+
+
+_FAULTS_DONE = []
+
+
+def run_user_code_faults():
+    """what an application can legitimately have happen before the library parses anything: its own handlers and callbacks
+    raising at every point where the library calls user code (each contained by the caller, as an application would).  A
+    correct library keeps no trace of it; process-wide state left behind by an interrupted operation shows in what follows."""
+    import asyncio
+
+    from indi.client.client import BaseClient
+    from indi.device import Driver, events, properties
+    from indi.message import IndiMessage
+    from indi.routing import Client, Router
+
+    mood = {"raise": True}
+
+    def moody(event):
+        if mood["raise"]:
+            raise RuntimeError("user handler fails")
+
+    els = dict(t=properties.Text("T", default="x"), u=properties.Text("U", default="y"))
+    vec = properties.TextVector("V", elements=els)
+    sw = properties.SwitchVector("S", rule="OneOfMany", elements=dict(a=properties.Switch("A", default="On"), b=properties.Switch("B", default="Off")))
+    num = properties.NumberVector("N", elements=dict(n=properties.Number("N1", default=1.0)))
+    els["t"].attach_event_handler(events.Read, moody)
+    els["u"].attach_event_handler(events.Write, moody)
+    els["u"].attach_event_handler(events.Change, moody)
+
+    class Dev(Driver):
+        name = "FAULTY"
+        g = properties.Group("G", vectors=dict(v=vec, s=sw, n=num))
+
+    class Deaf(Client):
+        def message_from_device(self, msg):
+            if mood["raise"]:
+                raise RuntimeError("client endpoint fails")
+
+    async def main():
+        router = Router()
+        router.register_client(Deaf())
+        d = Dev(router=router)
+        actions = [
+            lambda: setattr(d.g.v, "state_", "Busy"),                      # publication reads T: its Read handler raises
+            lambda: d.g.v.t.value,
+            lambda: setattr(d.g.v.u, "value", "z"),                        # Change handler raises / delivery raises
+            lambda: d.g.v.u.set_value("w"),                                # Write handler raises
+            lambda: setattr(d.g.s.b, "value", "On"),                       # delivery of a switch update raises
+            lambda: setattr(d.g.n.n, "value", 2.5),
+            lambda: setattr(d.g.n, "enabled", False),
+            lambda: router.process_message(IndiMessage.from_string('<getProperties version="1.7"/>')),
+            lambda: router.process_message(IndiMessage.from_string('<newTextVector device="FAULTY" name="V"><oneText name="U">q</oneText></newTextVector>')),
+        ]
+        for phase in (True, False, True, False):
+            mood["raise"] = phase
+            for act in actions:
+                try:
+                    act()
+                except Exception:  # noqa
+                    pass
+                await asyncio.sleep(0)
+        client = BaseClient()
+        client.onevent(callback=moody)
+        mood["raise"] = True
+        for xml in ('<defTextVector device="D" name="P" state="Ok" perm="rw"><defText name="x">1</defText></defTextVector>',
+                    '<setTextVector device="D" name="P" state="Busy"><oneText name="x">2</oneText></setTextVector>'):
+            try:
+                client.process_message(IndiMessage.from_string(xml))
+            except Exception:  # noqa
+                pass
+        mood["raise"] = False
+
+    try:
+        asyncio.run(main())
+    except Exception:  # noqa
+        pass
+
+
+def gen_parse_after_faults(rng, tier):
+    """the hostile parsing cases once more (a sample), in a process in which user handlers and callbacks have raised at every
+    point where the library calls user code"""
+    for n, case in enumerate(gen_parse_cases(rng, tier)):
+        if n % 5 == 0:
+            yield dict(case, _after="faults")
 
 
 def gen_toxml_cases(rng, tier):
